@@ -54,6 +54,15 @@ def build_harness():
     return rc == 0, out
 
 
+VH_RACE = os.path.join(BIN, "vh-race")
+
+
+def build_harness_race():
+    """the same harness with the Go race detector (first build ~2 min, later builds are incremental)"""
+    rc, out = sh(["go", "build", "-race", "-tags", "verif", "-o", VH_RACE, "./cmd/vh"], cwd=HARNESS, env=GOENV, timeout=3000)
+    return rc == 0, out
+
+
 def coq_makefile():
     mk = os.path.join(COQ, "Makefile")
     cp = os.path.join(COQ, "_CoqProject")
@@ -397,6 +406,11 @@ def setup():
     with Lock():
         log("building harness")
         ok, out = build_harness()
+        if not ok:
+            print(out)
+            return 3
+        log("building harness with the race detector")
+        ok, out = build_harness_race()
         if not ok:
             print(out)
             return 3
